@@ -100,7 +100,7 @@ impl ToTokens for MatchArms<'_> {
                 ForwardAttrsFilter::Only(idents) => {
                     let names = idents.to_strings();
                     quote! {
-                        #(#names)|* if __attr.path().leading_colon.is_none() => #push_command,
+                        #(#names)|* => #push_command,
                         _ => continue,
                     }
                 }
